@@ -1,6 +1,7 @@
 package main
 
 import (
+	"sync"
 	"encoding/json"
 	"flag"
 	"fmt"
@@ -23,6 +24,10 @@ type Ctx struct {
 	PreDecl    map[string]bool
 	TrustedFns []string
 	AxiomNames []string
+	// rename tolerance (locals.go)
+	Hints      map[string]*FnVars
+	aliasCache map[string]map[string]string
+	aliasMu    sync.Mutex
 }
 
 func specFiles(repo, verif string) []string {
@@ -65,7 +70,7 @@ func newCtx(repo, verif string) (*Ctx, error) {
 			return nil, err
 		}
 	}
-	c := &Ctx{P: P, S: S}
+	c := &Ctx{P: P, S: S, Hints: readHints(verif)}
 	if err := c.buildSpecPrelude(); err != nil {
 		return nil, err
 	}
@@ -153,6 +158,12 @@ func (c *Ctx) genWith(fn *ssa.Function, prop string, forbid []Forbid, orderHeaps
 	g.forbid = forbid
 	g.orderHeaps = orderHeaps
 	g.preDecl = c.PreDecl
+	g.aliasFn = func(f *ssa.Function) map[string]string {
+		c.aliasMu.Lock()
+		defer c.aliasMu.Unlock()
+		return c.aliasesFor(f)
+	}
+	g.aliasOf = g.aliasFn(fn)
 	if err := g.Generate(); err != nil {
 		return nil, err
 	}
@@ -181,6 +192,18 @@ func main() {
 		os.Exit(cmdList(os.Args[2:]))
 	case "replay":
 		os.Exit(cmdReplay(os.Args[2:]))
+	case "locals":
+		// record the position-based description of the variables of every function under contract
+		c, err := newCtx("/repo", "/verif")
+		if err != nil {
+			fmt.Fprintln(os.Stderr, err)
+			os.Exit(2)
+		}
+		if err := writeLocals(c.P, c.S, "/verif"); err != nil {
+			fmt.Fprintln(os.Stderr, err)
+			os.Exit(2)
+		}
+		os.Exit(0)
 	case "frame":
 		c, err := newCtx("/repo", "/verif")
 		if err != nil {
